@@ -15,7 +15,7 @@ import json
 from vlib import OkV, Diag, Internal
 
 LEVEL = 'proof'
-RULE = ('cases: every traced class variant of every ISA x N operand tuples (quick N=8, thorough N=200; quick samples at most '
+RULE = ('cases: every traced class variant of every ISA x N operand tuples (quick N=8, thorough N=30; quick samples at most '
         '60 variants per ISA, seeded): registers drawn from the class register set (first/last/random), immediates from the '
         'boundaries of the field range, 0, +-1, random in range and ~15%% out-of-range values; non-trivial = distinct '
         '(variant, operand tuple) with at least one operand and an implementation outcome that is bytes')
@@ -479,7 +479,7 @@ def run(ctx):
 
 
 def correspondence(ctx, T, info):
-    n_per = 8 if ctx.quick() else 200
+    n_per = 8 if ctx.quick() else 30
     if ctx.failed_stages and ctx.quick():
         n_per = 24
     cases, recs = [], []
@@ -633,6 +633,14 @@ def llvm_stage(ctx):
     ctx.cov['stages']['llvm_mc'] = {'per_isa': stats, 'excluded': {'%s/%s' % k: v for k, v in L.EXCLUDE.items()},
                                     'note': 'validation only; rejected/untranslatable/reinterpreted lines are skipped, never reported'}
     ctx.cov['evaluations'] += sum(st['compared'] for st in stats.values())
+    # addressing-mode boundary sweep of build-C04 (read-only import): every x86_64 memory-operand constructor x 16 bases x
+    # boundary displacements x 4 carriers, byte-compared with llvm-mc; reported under C08 with C08 replays
+    try:
+        import importlib
+        c04 = importlib.import_module('props.c04')
+        c04.x86_addressing_stage(ctx)
+    except Exception as ex:   # noqa: BLE001
+        ctx.cov['stages']['x86_addressing'] = 'not run: %s' % str(ex)[:200]
     for m in mm:
         ctx.violation({'fn': 'llvm-mc', 'isa': m['arch'], 'class': m['cls'], 'variant': m['variant'], 'args': m['args'],
                        'key': 'llvm:%s:%s' % (m['arch'], m['cls']), 'printed': m['printed'], 'llvm_input': m['llvm_input'],
